@@ -58,9 +58,9 @@ type PanicSite struct {
 	Entries  []string `json:"entries"`
 }
 
-const uioPath = "github.com/u-root/uio/uio"
+const panicUioPath = "github.com/u-root/uio/uio"
 
-var panicPkgs = []string{"./dhcpv4", "./dhcpv6", "./rfc1035label", "./iana", "./dhcpv4/nclient4", "./dhcpv4/ztpv4", "./dhcpv6/ztpv6", "./netboot", uioPath}
+var panicPkgs = []string{"./dhcpv4", "./dhcpv6", "./rfc1035label", "./iana", "./dhcpv4/nclient4", "./dhcpv4/ztpv4", "./dhcpv6/ztpv6", "./netboot", panicUioPath}
 
 var observerDeny = []string{"Set", "Add", "Update", "Del", "FromBytes", "Unmarshal", "Marshal", "Write"}
 
@@ -74,7 +74,7 @@ func denyName(n string) bool {
 }
 
 func inScope(p *types.Package) bool {
-	return p != nil && (strings.HasPrefix(p.Path(), mod) || p.Path() == uioPath)
+	return p != nil && (strings.HasPrefix(p.Path(), mod) || p.Path() == panicUioPath)
 }
 
 // functions that have a Lean model (the sites inside them are the ones the
@@ -90,7 +90,7 @@ func isModelled(fn *ssa.Function) bool {
 		recv = types.TypeString(r.Type(), func(*types.Package) string { return "" })
 	}
 	switch path {
-	case uioPath, mod + "/rfc1035label":
+	case panicUioPath, mod + "/rfc1035label":
 		return true
 	case mod + "/dhcpv6":
 		switch name {
